@@ -740,6 +740,26 @@ func runC08(h *H) {
 			}
 		}
 	}
+	// top-level values that are not structs (strings, binaries, collections, pointers): truncation at every offset
+	for _, tv := range [][2]string{{"str", "s 616263"}, {"bytes", "s 0102030405"}, {"sl str", "l 2 s 61 s 6263"}, {"ptr str", "p s 7a7a"},
+		{"map str i32", "m 1 s 6b i 7"}, {"sl sl i64", "l 2 l 1 i 5 l 0"}, {"str", "s -"}} {
+		t := parseTy(tv[0])
+		v := parseVal(t, tv[1])
+		for _, pn := range thriftProtos {
+			b, err := thrift.Marshal(thriftProto(pn), v.Interface())
+			if err != nil {
+				continue
+			}
+			for n := 0; n < len(b); n++ {
+				o := "err:unexpectedEof"
+				if n == 0 {
+					o = "err:eof"
+				}
+				h.DoRisky("thrift.decode", pn, "0", tv[0], hx(b[:n]), o)
+			}
+			h.DoRisky("thrift.decode", pn, "0", tv[0], hx(b), thriftDecode(thriftProto(pn), false, t, b))
+		}
+	}
 	// missing required field / strict type mismatch, directed
 	req := `st 2 f A 7468726966743a22312c726571756972656422 0 i32 f B 7468726966743a223222 0 str`
 	for _, pn := range thriftProtos {
